@@ -35,6 +35,8 @@ type Case struct {
 	Formatter string        `json:"formatter"` // atlas | golang-migrate | goose | flyway | liquibase | dbmate
 	Delimiter string        `json:"delimiter"` // atlas formatter only ("" = default)
 	Import    bool          `json:"import"`    // third-party formats: also run the real `atlas migrate import` and compare
+	// Checkpoint (atlas format): the plan is written with Planner.WriteCheckpoint (a checkpoint file with a tag) instead of WritePlan
+	Checkpoint bool `json:"checkpoint,omitempty"`
 }
 
 func planner(d string) migrate.PlanApplier {
@@ -82,11 +84,19 @@ func inject(d string, m *gm.Schema, ins []Inject) {
 				q = "`ufree2`"
 			}
 			users.Checks = append(users.Checks, gm.Check{Name: "ck_hostile", Expr: q + " <> " + lit(d, in.S)})
-		case "enum-value":
+		case "enum-value", "enum-value-first", "enum-value-middle":
 			if d == "postgres" {
 				for i := range m.Enums {
 					if m.Enums[i].Name == "mood" {
-						m.Enums[i].Values = append(m.Enums[i].Values, in.S)
+						vs := m.Enums[i].Values
+						switch in.Site {
+						case "enum-value-first":
+							m.Enums[i].Values = append([]string{in.S}, vs...)
+						case "enum-value-middle":
+							m.Enums[i].Values = append(append(append([]string{}, vs[:1]...), in.S), vs[1:]...)
+						default:
+							m.Enums[i].Values = append(vs, in.S)
+						}
 					}
 				}
 			}
@@ -188,9 +198,19 @@ func checkCase(c Case) (Outcome, error) {
 		return out, fmt.Errorf("harness: %v", err)
 	}
 	defer os.RemoveAll(dirp)
-	for _, fl := range files {
-		if err := os.WriteFile(filepath.Join(dirp, fl.Name()), fl.Bytes(), 0o644); err != nil {
+	if c.Checkpoint && c.Formatter == "atlas" {
+		ld, err := migrate.NewLocalDir(dirp)
+		if err != nil {
 			return out, fmt.Errorf("harness: %v", err)
+		}
+		if err := migrate.NewPlanner(nil, ld).WriteCheckpoint(plan, "v1"); err != nil {
+			return out, fmt.Errorf("atlas: WriteCheckpoint failed: %v", err)
+		}
+	} else {
+		for _, fl := range files {
+			if err := os.WriteFile(filepath.Join(dirp, fl.Name()), fl.Bytes(), 0o644); err != nil {
+				return out, fmt.Errorf("harness: %v", err)
+			}
 		}
 	}
 	var dir migrate.Dir
